@@ -9,7 +9,7 @@ THEOREMS = ['c05_roundtrip', 'c05_prefix_is_length', 'c05_chunking', 'c05_encode
 RULE = ('cases from one seeded PRNG: (stream) 1-5 structured random frames of all eight kinds (arbitrary UTF-8 topics, 0-3 headers incl. cid/req_id, '
         'payload sizes biased to 0,1,8,9,255,256 and, in every 25th case, to limit-24..limit+24), each encoded by the real Encoder, concatenated and cut '
         'by one of six chunking modes (whole, 1-byte, 1-3, 1-12, 1-2000, header-aligned sizes; optional empty chunk), decoded by the real Decoder; (raw) '
-        'oversize length prefixes and mutated valid streams (truncate, bit flips, adversarial 8-byte values, garbage tail, byte removal); (batch) message lists '
+        'oversize length prefixes, well-framed type-confused frames (valid length, any type byte, random or foreign payload) and mutated valid streams (truncate, bit flips, adversarial 8-byte values, garbage tail, byte removal); (batch) message lists '
         'and mutated/arbitrary batch bytes; non-trivial = distinct case text')
 
 
